@@ -22,7 +22,10 @@ TRUSTED_BASE = ["encoding/xml (abstract decoder of the model; its token trace is
                 "with the trace of the Lean reader Spec.XmlScan.scanDoc on the same text)",
                 "compress/gzip", "the Go scheduler and memory model (-race runs look for data races)",
                 "Entry/SequenceType unmarshalling is exercised through the judge (delivered accessions, names, sequence) only"]
-ASSUMPTIONS = ["offsets of the document spec (truncation, entry ends) are CHARACTER offsets; they are byte offsets for ASCII documents; "
+ASSUMPTIONS = ["RULING (uniprot.Read returning an error): acceptable only when the gzip HEADER is damaged (the archive cannot be opened "
+               "at all); when the member opens, an error from Read instead of a parse loses the entries before the damage and is "
+               "judged FAIL",
+               "offsets of the document spec (truncation, entry ends) are CHARACTER offsets; they are byte offsets for ASCII documents; "
                "gzip-level damage is converted from the decompressed BYTE count; a cut inside a multi-byte character is reached "
                "through gzip truncation only",
                "RULING (gzip header unreadable): uniprot.Read returns its error synchronously and that error is the report; the "
